@@ -1,6 +1,6 @@
 From Coq Require Import String.
 From Coq Require Import ZArith List Bool Lia ZifyBool.
-From LasV Require Import Lib.Base Lib.BaseFacts Lib.Layout Gen.GenHeaderLayout Gen.GenFormatBits Gen.GenDims Model.Las Model.LasFast.
+From LasV Require Import Lib.Base Lib.BaseFacts Lib.Layout Proofs.LayoutProofs Gen.GenHeaderLayout Gen.GenFormatBits Gen.GenDims Model.Las Model.LasFast.
 Import ListNotations.
 Open Scope list_scope.
 Open Scope Z_scope.
@@ -59,3 +59,24 @@ Qed.
 
 Theorem arun_f_eq ap src chunks : arun_f ap src chunks = arun ap src chunks.
 Proof. unfold arun_f, arun. now rewrite aopen_f_eq. Qed.
+
+(* ---- the truncating appender: equal to the plain one whenever nothing lies beyond the relocated EVLRs ---- *)
+Lemma ztake_all {A} n (l : list A) : len l <= n -> ztake n l = l.
+Proof. intros H. rewrite ztake_eq. apply firstn_all2. unfold len in H. lia. Qed.
+
+Lemma write_at_len f pos bs : 0 <= pos -> len (write_at f pos bs) = Z.max (len f) (pos + len bs).
+Proof.
+  intros Hp. unfold write_at, len. rewrite !app_length, firstn_length, zeros_length, skipn_length.
+  lia.
+Qed.
+
+Theorem aclose_t_eq s : 0 <= a_pos s ->
+  (forall eb e es, a_evlrs s = Some (e :: es) -> enc_vlrs true (e :: es) = Ok eb -> len (a_file s) <= a_pos s + len eb) ->
+  aclose_t s = aclose s.
+Proof.
+  intros Hp H. unfold aclose_t, aclose.
+  destruct (a_evlrs s) as [[|e es]|] eqn:Ee; try reflexivity.
+  destruct (enc_vlrs true (e :: es)) as [eb|x] eqn:Eb; [|reflexivity].
+  rewrite ztake_all; [reflexivity|].
+  rewrite write_at_len by exact Hp. specialize (H eb e es eq_refl Eb). lia.
+Qed.
